@@ -108,18 +108,18 @@ def out_tokens(b, events, sink_local):
     return toks
 
 
-def self_conds(events):
+def self_conds(events, data_args=(0,)):
     """branch decisions that depend on the value being encoded (not on `?` results)"""
     out = []
     for t, lab in P.conds(events):
         if lab[0] == "try":
             continue
-        if U.has_arg(t, "self") or any(isinstance(x, tuple) and x and x[0] == "arg" and x[1] == 0 for x in subterms(t)):
+        if U.has_arg(t, "self") or any(isinstance(x, tuple) and x and x[0] == "arg" and x[1] in data_args for x in subterms(t)):
             out.append((show(_strip_views(t)), lab))
     return frozenset(out)
 
 
-def path_map(b, sink_local, want):
+def path_map(b, sink_local, want, data_args=(0,)):
     """{self-conditions: [token sequences]} over the paths with result class in `want`"""
     m = {}
     n = 0
@@ -130,7 +130,7 @@ def path_map(b, sink_local, want):
         if rc not in want:
             continue
         n += 1
-        m.setdefault(self_conds(events), set()).add(tuple(out_tokens(b, events, sink_local)))
+        m.setdefault(self_conds(events, data_args), set()).add(tuple(out_tokens(b, events, sink_local)))
     return m, n
 
 
@@ -149,6 +149,7 @@ def run(ctx):
               sum(1 for t, m in impls.items() if len(m) == 3), 150)
     c13_1a(ctx, impls)
     c13_1b(ctx, impls)
+    c13_1c(ctx)
     c13_2(ctx, impls)
     c13_3(ctx, impls)
     c13_4(ctx, impls)
@@ -273,6 +274,26 @@ def _pos_digest(ctx, R, ty, ms_map, md_map):
                 detail.append("stream %s vs digest %s" % (_fmt({s}), _fmt(dseqs)))
     ctx.ob(R, "impl:" + ty, ok, "; ".join(detail) or
            "stream == update_digest except proof -> quality-string commitment on v2 paths (statement's exception)")
+
+
+# ------------------------------------------------------------------ C13.1c
+def c13_1c(ctx):
+    """the shared-prefix option-pair helper (chia_protocol::utils) is itself a codec trio used by three block types"""
+    R = "C13.1c"
+    fb = ctx.fb
+    fs = {k: fb.fns.get("chia_protocol::utils::" + k) for k in ("stream", "update_digest", "parse")}
+    if not all(fs.values()):
+        return ctx.missing(R, "option-pair helper", "chia_protocol::utils::{stream,update_digest,parse} not found")
+    bs, bd, bp = (Body(fs[k], fb) for k in ("stream", "update_digest", "parse"))
+    ctx.touched(bs.path, bd.path, bp.path)
+    ms_map, ns = path_map(bs, 3, ("Ok", "call"), data_args=(0, 1))
+    md_map, nd = path_map(bd, 3, ("unit", "other", "call"), data_args=(0, 1))
+    ok = set(ms_map) == set(md_map) and len(ms_map) == 4 and all(ms_map[k] == md_map[k] and len(ms_map[k]) == 1 for k in ms_map)
+    ctx.ob(R, "helper:stream==update_digest", ok, "option-pair helper: stream and update_digest emit the same tokens on each of the four (first, second) presence cases",
+           found={str(sorted(k)): (_fmt(ms_map.get(k, set())), _fmt(md_map.get(k, set()))) for k in set(ms_map) | set(md_map) if ms_map.get(k) != md_map.get(k)} or None,
+           where=fs["update_digest"].sp)
+    from . import c13_versioned
+    c13_versioned.helper(ctx, R, bs, bp, fs["stream"].e["arg_names"][:2])
 
 
 # ------------------------------------------------------------------ C13.1b
